@@ -143,3 +143,47 @@ func TestSelfJudge(t *testing.T) {
 		}
 	}
 }
+
+// TestSelfDialBound: the dial-timeout clause of the real part on hand-made traces.
+func TestSelfDialBound(t *testing.T) {
+	sc := &Scenario{Real: true, BaseMs: 1000, MaxMs: 3000, DialTimeoutMs: 2001, Targets: []Target{{Addr: 0}}, Dials: [][]DialStep{{{Kind: "hang"}}}}
+	s := time.Second
+	good := []Ev{
+		{Tgt: "t0", Kind: kDialStart, N: 0},
+		{Tgt: "t0", Kind: kDialResult, N: 0, At: 2001 * time.Millisecond, Err: "context deadline exceeded"},
+		{Tgt: "t0", Kind: kDialStart, N: 1, At: 3001 * time.Millisecond},
+		{Tgt: "", Kind: kEnd, N: -1, At: 4 * s},
+	}
+	if err := checkDialBound(sc, good, nil); err != nil {
+		t.Fatalf("good trace refused: %v", err)
+	}
+	late := []Ev{
+		{Tgt: "t0", Kind: kDialStart, N: 0},
+		{Tgt: "t0", Kind: kDialResult, N: 0, At: 3 * s, Err: "context canceled"},
+		{Tgt: "", Kind: kEnd, N: -1, At: 4 * s},
+	}
+	if err := checkDialBound(sc, late, nil); err == nil || classOf(err) != "dial-timeout-not-enforced" {
+		t.Fatalf("late answer accepted: %v", err)
+	}
+	never := []Ev{
+		{Tgt: "t0", Kind: kDialStart, N: 0},
+		{Tgt: "", Kind: kEnd, N: -1, At: 4 * s},
+	}
+	if err := checkDialBound(sc, never, nil); err == nil || classOf(err) != "dial-timeout-not-enforced" {
+		t.Fatalf("unanswered attempt accepted: %v", err)
+	}
+	sc0 := *sc
+	sc0.DialTimeoutMs = 0
+	if err := checkDialBound(&sc0, never, nil); err != nil {
+		t.Fatalf("without a dial timeout nothing is demanded: %v", err)
+	}
+	// validateReal: what the part never generates
+	bad := &Scenario{Real: true, BaseMs: 1000, MaxMs: 3000, Targets: []Target{{Addr: 0}, {Addr: 0}}, Dials: [][]DialStep{{{Kind: "hang"}}}}
+	if err := bad.validate(); err == nil {
+		t.Fatalf("hang on a shared address without a dial timeout accepted")
+	}
+	bad.DialTimeoutMs = 301
+	if err := bad.validate(); err != nil {
+		t.Fatalf("hang on a shared address with a dial timeout refused: %v", err)
+	}
+}
